@@ -73,6 +73,8 @@ struct Params {
   // file carries) while another process-wide drop-in directory list is in force; the list is then put back and the
   // object used for the real read
   bool warmup_failed_read = false;
+  // readConfig* with PARSING_DIRS: use this list instead of the layers' directories (e.g. ":<etc>" = no vendor directory)
+  std::string parsing_dirs_override;
 
   bool dropins_only() const { return name_mode != 0; }
   std::string sfx() const { return suffix_mode >= 2 ? std::string() : "." + sfx_word; }
@@ -546,12 +548,22 @@ struct CbCtx {
   std::function<bool(const char *)> decide;  // default: accept
   const void *expect_data = nullptr;
   bool data_ok = true;
+  bool null_data = false;  // register the callback with a NULL data pointer (a check need not have a context)
 };
+static CbCtx *g_cb_for_null_data = nullptr;
 
 inline bool tree_callback(const char *filename, const void *data) {
-  // data points to a pair {CbCtx*, cookie}
+  // data points to a pair {CbCtx*, cookie} - or is NULL, then the context is the registered global one
+  if (data == nullptr) {
+    CbCtx *cx = g_cb_for_null_data;
+    if (!cx) return true;
+    if (!cx->null_data) cx->data_ok = false;
+    cx->log.push_back(filename ? filename : "<NULL>");
+    return cx->decide ? cx->decide(filename) : true;
+  }
   const void *const *pp = (const void *const *)data;
   CbCtx *cx = (CbCtx *)pp[0];
+  if (cx->null_data) cx->data_ok = false;
   if (pp[1] != cx->expect_data) cx->data_ok = false;
   cx->log.push_back(filename ? filename : "<NULL>");
   return cx->decide ? cx->decide(filename) : true;
@@ -582,7 +594,9 @@ inline ReadResult read_tree(const Tree &t, const Params &p, const std::string &r
   CbCtx dummy_cb;
   if (!cb) cb = &dummy_cb;
   const std::string D = DELIMS[p.di].d, C = COMMENTS[p.ci];
-  const void *cbdata[2] = {cb, cb ? cb->expect_data : nullptr};
+  const void *cbdata_arr[2] = {cb, cb ? cb->expect_data : nullptr};
+  const void *const *cbdata = cb->null_data ? nullptr : cbdata_arr;
+  if (cb->null_data) g_cb_for_null_data = cb;
   // process-wide postfix list
   bool set_global = p.confdirs_mode == 2 || p.confdirs_mode == 3;
   if (set_global) {
@@ -600,7 +614,7 @@ inline ReadResult read_tree(const Tree &t, const Params &p, const std::string &r
     if (p.scheme == S_DEFAULT && !force_parsing_dirs)
       opt = "ROOT_PREFIX=" + root;
     else
-      opt = "PARSING_DIRS=" + join_dirs(root, t);
+      opt = "PARSING_DIRS=" + (p.parsing_dirs_override.empty() ? join_dirs(root, t) : p.parsing_dirs_override);
     if (p.confdirs_mode == 1 || p.confdirs_mode == 3) {
       opt += ";CONFIG_DIRS=";
       for (size_t i = 0; i < p.obj_postfixes.size(); i++) opt += (i ? ":" : "") + p.obj_postfixes[i];
